@@ -799,8 +799,13 @@ func (ot *objectTree) Delete() error {
 	if ot.isDeleted {
 		return nil
 	}
+	// marking the tree as deleted only after the storage was actually deleted,
+	// otherwise a repeated Delete after a storage error would be a silent no-op
+	if err := ot.storage.Delete(context.Background()); err != nil {
+		return err
+	}
 	ot.isDeleted = true
-	return ot.storage.Delete(context.Background())
+	return nil
 }
 
 func (ot *objectTree) SnapshotPath() ([]string, error) {
